@@ -76,9 +76,12 @@ Pro6 == <<Config(1, 1001, "A", CfgA), Create(2, 1002), Create(3, 1003), Create(4
           Line(9, 1009, 2, "JOIN", <<"#a">>),
           Line(10, 1010, 2, "MODE", <<"#a", "+b", "bob!*@*">>), Line(11, 1011, 2, "MODE", <<"#a", "+b", "BOB!*@*">>),
           Line(12, 1012, 2, "MODE", <<"#a", "+b", "*!*@robust/0x3">>), Line(13, 1013, 2, "MODE", <<"#a", "+k", "k1">>),
-          Line(14, 1014, 4, "PASS", <<"services=spw">>), Line(15, 1015, 4, "SERVER", <<"services.example", "1", "S">>),
-          [Line(16, 1016, 4, "NICK", <<"B[ot]", "1", "1", "bo", "h", "s", "0", "+o", "B">>) EXCEPT !.hrid = 5],
-          SLine(17, 1017, 4, "B[ot]", "JOIN", <<"#a">>)>>
+          (* the channel is captcha-protected as well, and the banned user holds an invitation: an invitation *)
+          (* stands in for the captcha only - bans and the key still apply                                    *)
+          Line(14, 1014, 2, "MODE", <<"#a", "+x">>), Line(15, 1015, 2, "INVITE", <<"bob", "#a">>),
+          Line(16, 1016, 4, "PASS", <<"services=spw">>), Line(17, 1017, 4, "SERVER", <<"services.example", "1", "S">>),
+          [Line(18, 1018, 4, "NICK", <<"B[ot]", "1", "1", "bo", "h", "s", "0", "+o", "B">>) EXCEPT !.hrid = 5],
+          SLine(19, 1019, 4, "B[ot]", "JOIN", <<"#a">>)>>
 (* a GLINE-banned address: an operator banned the address of a user; every line that now arrives from that *)
 (* address closes its session (ProcessMessage records the new address before anything else), whatever the   *)
 (* command; plus a nickname made of the scandinavian characters only (no bracket)                          *)
